@@ -22,7 +22,7 @@ From BV Require Import Model.Teardown.
 Import ListNotations.
 Open Scope string_scope.
 
-Definition expected_shapes : list (string * list string) := [
+Definition pre_d16k_shapes : list (string * list string) := [
   ("host.Host.on_hci_disconnection_complete_event",
     ["if[(connection := (self.connections.get(handle) or self.cis_links.get(handle) or self.sco_links.get(handle))) is None]";
      "then>return";
@@ -189,8 +189,9 @@ Definition expected_shapes : list (string * list string) := [
      "return"])
 ].
 
-(* the same with fixes/D16k.patch (Host refuses to write a command into a lost transport) *)
-Definition expected_shapes_d16k : list (string * list string) := [
+(* the reviewed shapes: the code with D16k (Host refuses to write a command into a lost transport);
+   [pre_d16k_shapes] above is the shape before that repair, kept only to show that it is rejected *)
+Definition expected_shapes : list (string * list string) := [
   ("host.Host.on_hci_disconnection_complete_event",
     ["if[(connection := (self.connections.get(handle) or self.cis_links.get(handle) or self.sco_links.get(handle))) is None]";
      "then>return";
